@@ -215,12 +215,12 @@ type e1Node struct {
 	foldedUpTo uint64
 	snapCount  int
 	// lastSnapIndex is the raft index of the newest successfully persisted snapshot.
-	lastSnapIndex uint64
-	dead          bool
-	order         *verifrt.Order // how this replica iterates maps (mapseam)
-	proto, protoSet bool         // this node's -pre1.0_protobuf flag (set by the engines that vary it)
-	restored      bool // went through FSM.Restore at least once
-	cycled        bool // went through Marshal+Unmarshal at least once
+	lastSnapIndex   uint64
+	dead            bool
+	order           *verifrt.Order // how this replica iterates maps (mapseam)
+	proto, protoSet bool           // this node's -pre1.0_protobuf flag (set by the engines that vary it)
+	restored        bool           // went through FSM.Restore at least once
+	cycled          bool           // went through Marshal+Unmarshal at least once
 }
 
 func (n *e1Node) use() {
